@@ -68,6 +68,18 @@ def build(P):
                  contract=Contract(f"{TH}:set_thresholds", cut=False, params={"thresholds": D, "target_objects_num": TInt(), "nest": VBool(nest)},
                                    raises={"ThresholdError": "True", "TypeError": "True"}, ensures=post),
                  extra_contracts={idx.lookup(f"{TH}:__get_thresholds").fq: get_flat, idx.lookup(f"{TH}:__get_nested_thresholds").fq: get_nested})
+    # ---------------------------------------------------------------- __get_thresholds: a number or a singleton is repeated for every label, a full list is taken as it is,
+    # any other length is rejected (never padded, tiled or truncated)
+    P.verify(f"{TH}:__get_thresholds", name="__get_thresholds",
+             contract=Contract(f"{TH}:__get_thresholds", cut=False, params={"threshold": D, "num_elements": TInt()},
+                               requires=E("a_number_or_a_list", "is_real(threshold) or is_list(threshold)", "label_count", "num_elements >= 1"),
+                               raises={"ThresholdError": f"is_list(threshold) and (dlen(threshold) == 0 or not ({all_real('threshold')}) or (dlen(threshold) != 1 and dlen(threshold) != num_elements))"},
+                               ensures=E("a_list_of_another_length_is_rejected_not_padded", "implies(is_list(threshold), dlen(threshold) == 1 or dlen(threshold) == num_elements)",
+                                         "only_numbers_are_accepted", f"implies(is_list(threshold), dlen(threshold) > 0 and {all_real('threshold')})",
+                                         "one_entry_per_label", "is_list(result) and dlen(result) == num_elements",
+                                         "a_number_is_repeated", "implies(is_real(threshold), forall(k, 0, num_elements, ditem(result, k) is threshold))",
+                                         "a_singleton_is_repeated", "implies(is_list(threshold) and dlen(threshold) == 1, forall(k, 0, num_elements, ditem(result, k) is ditem(threshold, 0)))",
+                                         "a_full_list_is_taken_as_it_is", "implies(is_list(threshold) and dlen(threshold) != 1, forall(k, 0, num_elements, ditem(result, k) is ditem(threshold, k)))")))
     # ---------------------------------------------------------------- task supported by the manager
     CFG = "config.perception_evaluation_config"
     PEC = idx.lookup(f"{CFG}:PerceptionEvaluationConfig")
@@ -185,4 +197,4 @@ def build(P):
                                        [("task_of_the_evaluator", "self.evaluation_task is evaluator_config.evaluation_task")]),
              extra_contracts={idx.lookup("common.label:set_target_lists").fq: stl, idx.lookup(f"{TH}:check_thresholds").fq: ct_cut})
     P.assume("threshold values are modelled two levels deep with a type tag (None, bool, int, float, str, list, other); the code never inspects deeper levels")
-    P.uncover("__get_thresholds / __get_nested_thresholds (broadcast of scalars and singletons, idempotence, 'output entries are input entries'): bounded native harness only")
+    P.uncover("__get_nested_thresholds (broadcast of scalars and singleton rows, idempotence, 'output entries are input entries'): bounded native harness only")
